@@ -411,6 +411,8 @@ def run(ck):
             roles = tuple(rng.choice("SR") for _ in range(k))
             if "S" in roles and roles not in roles_list:
                 roles_list.append(roles)
+        if rng.random() < 0.3:
+            roles_list.append(tuple("R" for _ in range(k)))      # no source at all: every file a reference, compiled all the same
         variants = [(perms[0], roles_list[0])] * 4 + [(p, roles_list[0]) for p in perms[1:]] + [(rng.choice(perms), r) for r in roles_list[1:]]
         for vi, (perm, roles) in enumerate(variants):
             files = [(roles[j], names[j], texts[j]) for j in perm]
@@ -422,7 +424,7 @@ def run(ck):
     o = dc.run_all(lines, chunk=12)
     ck.stream("orders", description="multi-file programs (valid; with one injected rule violation; with a deprecated definition used elsewhere; one struct per file forming containment cycles with tails leading in and finite types leading out; files that declare only a module, files with no module at all; several files of one module using deprecated definitions and broken links at module scope and inside definitions with file-level and element-level allow attributes, base names repeated across directories; definitions sharing a scoped name across files; a definition sharing its scoped "
               "name with a module declared in another file, members (fields, enumerators, operations, parameters) doing so with doc links that name them, several such collisions and redefinitions at once; re-opened modules; preprocessor symbols defined or undefined in one file and tested in another) run through the real binary with a capturing generator: the same command line four times in fresh processes, every permutation of up to 4 files, "
-              "and source/reference re-assignments. Compared: stderr and generator request byte for byte between the two identical runs; acceptance (exit status) across all variants and against the rule model's verdict; "
+              "and source/reference re-assignments (also: every file a reference). Compared: stderr and generator request byte for byte between the two identical runs; acceptance (exit status) across all variants and against the rule model's verdict; "
               "for accepted programs every file's decoded request content and the multiset of warnings across all variants.")
     runs = {}
     reqs, reqidx = [], []
